@@ -92,6 +92,7 @@ class Ctx:
     params: list[Param] = field(default_factory=list)
     ret: Param | None = None
     tags: list[str] = field(default_factory=list)
+    alias: bool = False  # positions with identical (class, shape) share ONE annotation object (a type alias) in CALL lines
 
     def scope_str(self) -> str:
         return ";".join(f"{k}:{v}" for k, v in self.scope.items())
@@ -126,7 +127,14 @@ class Ctx:
             idx = [i for i, it in enumerate(items) if it.startswith("P|")]
             for i in idx[len(idx) - min(omit, len(idx)):]:
                 items[i] = "PD|" + items[i][2:]
+        if self.alias:
+            items.append("AL")
         return "\t".join(["CALL", f"{kind}:{style}", prov, self.scope_str(), *items])
+
+    def rand_call(self, rng, kind: str = "func", styles=("pos", "kw", "mixed", "fwd", "kwonly", "posonly"), omit_p: float = 0.3) -> str:
+        """the context as a call with every feature of the call protocol drawn at random: call style, trailing parameters left at
+        their default value"""
+        return self.call_line(kind, rng.choice(list(styles)), omit=(rng.randint(1, 3) if rng.random() < omit_p else 0))
 
     def entries(self) -> list[oracle.Ent] | None:
         """flattened annotated non-None tensors in source order; None if a value is not checkable (X, or None under a non-optional hint)"""
@@ -232,7 +240,7 @@ def conforming_shape(rng, dims: list[str], sig: dict, groups: dict) -> tuple[int
     return tuple(out)
 
 
-def gen_ctx(rng, max_tensors=4, tuple_p=0.2, ret_p=0.3, provider_p=0.3, libs=(0, 1, 2), perturb=(0, 0, 1, 1, 2)) -> Ctx:
+def gen_ctx(rng, max_tensors=4, tuple_p=0.2, ret_p=0.3, provider_p=0.3, libs=(0, 1, 2), perturb=(0, 0, 1, 1, 2), alias_p=0.12) -> Ctx:
     sig = {"a": rng.choice(SIZES[1:]), "b": rng.choice(SIZES), "d": rng.choice(SIZES), "g": rng.choice(SIZES)}
     sig = derived(sig)
     groups = {"g": tuple(rng.choice(SIZES) for _ in range(rng.choice([0, 1, 2, 2, 3]))), "h": tuple(rng.choice(SIZES) for _ in range(rng.choice([0, 1, 2])))}
@@ -292,6 +300,15 @@ def gen_ctx(rng, max_tensors=4, tuple_p=0.2, ret_p=0.3, provider_p=0.3, libs=(0,
             all_slots.append((s, cn))
             ctx.ret = Param("return", [s], False)
         ctx.tags.append("ret")
+    # a type alias: one position takes over class and shape (and the conforming value) of another; in CALL lines the two then share
+    # one annotation object, each with its own `| None`
+    if alias_p and len(all_slots) >= 2 and rng.random() < alias_p:
+        (sa, ca), (sb, _cb) = rng.sample(all_slots, 2)
+        j = next(i for i, (x, _) in enumerate(all_slots) if x is sb)
+        sb.cls, sb.shape, sb.value = sa.cls, sa.shape, sa.value
+        all_slots[j] = (sb, ca)
+        ctx.alias = True
+        ctx.tags.append("alias")
     # optional None values
     for s, _ in all_slots:
         if s.optional and rng.random() < 0.4:
